@@ -167,6 +167,13 @@ func (r Ring) AddScalarBigint(p1 Poly, scalar *big.Int, p2 Poly) {
 func (r Ring) AddDoubleRNSScalar(p1 Poly, scalar0, scalar1 RNSScalar, p2 Poly) {
 	NHalf := r.N() >> 1
 	for i, s := range r.SubRings[:r.level+1] {
+		if NHalf < 8 { // the vector kernels process 8 coefficients at a time
+			for j := 0; j < NHalf; j++ {
+				p2.Coeffs[i][j] = CRed(p1.Coeffs[i][j]+scalar0[i], s.Modulus)
+				p2.Coeffs[i][j+NHalf] = CRed(p1.Coeffs[i][j+NHalf]+scalar1[i], s.Modulus)
+			}
+			continue
+		}
 		s.AddScalar(p1.Coeffs[i][:NHalf], scalar0[i], p2.Coeffs[i][:NHalf])
 		s.AddScalar(p1.Coeffs[i][NHalf:], scalar1[i], p2.Coeffs[i][NHalf:])
 	}
@@ -177,6 +184,13 @@ func (r Ring) AddDoubleRNSScalar(p1 Poly, scalar0, scalar1 RNSScalar, p2 Poly) {
 func (r Ring) SubDoubleRNSScalar(p1 Poly, scalar0, scalar1 RNSScalar, p2 Poly) {
 	NHalf := r.N() >> 1
 	for i, s := range r.SubRings[:r.level+1] {
+		if NHalf < 8 { // the vector kernels process 8 coefficients at a time
+			for j := 0; j < NHalf; j++ {
+				p2.Coeffs[i][j] = CRed(p1.Coeffs[i][j]+s.Modulus-scalar0[i], s.Modulus)
+				p2.Coeffs[i][j+NHalf] = CRed(p1.Coeffs[i][j+NHalf]+s.Modulus-scalar1[i], s.Modulus)
+			}
+			continue
+		}
 		s.SubScalar(p1.Coeffs[i][:NHalf], scalar0[i], p2.Coeffs[i][:NHalf])
 		s.SubScalar(p1.Coeffs[i][NHalf:], scalar1[i], p2.Coeffs[i][NHalf:])
 	}
@@ -250,6 +264,14 @@ func (r Ring) MulScalarBigintThenAdd(p1 Poly, scalar *big.Int, p2 Poly) {
 func (r Ring) MulDoubleRNSScalar(p1 Poly, scalar0, scalar1 RNSScalar, p2 Poly) {
 	NHalf := r.N() >> 1
 	for i, s := range r.SubRings[:r.level+1] {
+		if NHalf < 8 { // the vector kernels process 8 coefficients at a time
+			s0, s1 := MForm(scalar0[i], s.Modulus, s.BRedConstant), MForm(scalar1[i], s.Modulus, s.BRedConstant)
+			for j := 0; j < NHalf; j++ {
+				p2.Coeffs[i][j] = MRed(p1.Coeffs[i][j], s0, s.Modulus, s.MRedConstant)
+				p2.Coeffs[i][j+NHalf] = MRed(p1.Coeffs[i][j+NHalf], s1, s.Modulus, s.MRedConstant)
+			}
+			continue
+		}
 		s.MulScalarMontgomery(p1.Coeffs[i][:NHalf], MForm(scalar0[i], s.Modulus, s.BRedConstant), p2.Coeffs[i][:NHalf])
 		s.MulScalarMontgomery(p1.Coeffs[i][NHalf:], MForm(scalar1[i], s.Modulus, s.BRedConstant), p2.Coeffs[i][NHalf:])
 	}
@@ -260,6 +282,14 @@ func (r Ring) MulDoubleRNSScalar(p1 Poly, scalar0, scalar1 RNSScalar, p2 Poly) {
 func (r Ring) MulDoubleRNSScalarThenAdd(p1 Poly, scalar0, scalar1 RNSScalar, p2 Poly) {
 	NHalf := r.N() >> 1
 	for i, s := range r.SubRings[:r.level+1] {
+		if NHalf < 8 { // the vector kernels process 8 coefficients at a time
+			s0, s1 := MForm(scalar0[i], s.Modulus, s.BRedConstant), MForm(scalar1[i], s.Modulus, s.BRedConstant)
+			for j := 0; j < NHalf; j++ {
+				p2.Coeffs[i][j] = CRed(p2.Coeffs[i][j]+MRed(p1.Coeffs[i][j], s0, s.Modulus, s.MRedConstant), s.Modulus)
+				p2.Coeffs[i][j+NHalf] = CRed(p2.Coeffs[i][j+NHalf]+MRed(p1.Coeffs[i][j+NHalf], s1, s.Modulus, s.MRedConstant), s.Modulus)
+			}
+			continue
+		}
 		s.MulScalarMontgomeryThenAdd(p1.Coeffs[i][:NHalf], MForm(scalar0[i], s.Modulus, s.BRedConstant), p2.Coeffs[i][:NHalf])
 		s.MulScalarMontgomeryThenAdd(p1.Coeffs[i][NHalf:], MForm(scalar1[i], s.Modulus, s.BRedConstant), p2.Coeffs[i][NHalf:])
 	}
